@@ -66,12 +66,14 @@ func (o rop) String() string {
 	}
 }
 
-// oneDocStats is a caller-side CollectionStats value (1,1,1).
+// oneDocStats is a caller-side CollectionStats value that is not ice's own
+// type, with three different components (5 documents, 2 of them carrying the
+// field, 11 occurrences).
 type oneDocStats struct{}
 
-func (*oneDocStats) TotalDocumentCount() uint64    { return 1 }
-func (*oneDocStats) DocumentCount() uint64         { return 1 }
-func (*oneDocStats) SumTotalTermFrequency() uint64 { return 1 }
+func (*oneDocStats) TotalDocumentCount() uint64    { return 5 }
+func (*oneDocStats) DocumentCount() uint64         { return 2 }
+func (*oneDocStats) SumTotalTermFrequency() uint64 { return 11 }
 func (*oneDocStats) Merge(segment.CollectionStats) {}
 
 // retriedErr is the error of a postings walk that saw an error and kept
@@ -128,6 +130,16 @@ func (o rop) run(env *ropEnv) (res string, err error) {
 			}
 			pl, err := d.PostingsList([]byte(o.term), nil, prePL)
 			if err != nil {
+				if prePL != nil {
+					// the caller still holds the list it handed in: using it must return (anything), not panic
+					_ = prePL.Count()
+					if hit, e := prePL.Iterator(true, true, true, nil); e == nil && hit != nil {
+						_, _ = hit.Next()
+					}
+					if hit, e := prePL.Iterator(false, false, false, nil); e == nil && hit != nil {
+						_, _ = hit.Next()
+					}
+				}
 				return err
 			}
 			it, err := pl.Iterator(true, true, true, preIt)
